@@ -7,6 +7,7 @@ Hostile-input monitor: structure-aware garbage is fed to every front-end; observ
     request contained in the bytes (reference receivers, any offset) writes there,
 (3) a well-formed probe on a fresh connection (same line for the serial handler, within the
     C11 recovery bound) is answered from the store's actual contents."""
+import os
 from .. import frontends as FE
 from .. import gen
 from .. import repo
@@ -182,10 +183,10 @@ def unjustified_changes(framing, streams, before, after, unit_of_store, loose=Fa
         mdl = SM.build_model(layout)
         rf = mdl.only if mdl.single else mdl.units.get(unit_of_store)
     for data in streams:
-        cands = ADU.candidates(framing, REQ, data, loose=loose) if framing != 'tls' else tls_candidates(data)
+        cands = ADU.candidates(framing, REQ, data, loose=loose) if framing != 'tls' else tls_candidates(data, loose)
         if loose and framing == 'ascii':
             from .c07 import lenient_ascii_candidates
-            extra = [f for f in lenient_ascii_candidates(REQ, data) if not f.msg.get('malformed')]
+            extra = list(lenient_ascii_candidates(REQ, data))        # (those with a non-conformant PDU go through prefix_requests below)
             if extra:
                 LOOSE_SLUGS.add('ascii-lrc-field-parsed-leniently')
             cands = list(cands) + extra
@@ -232,14 +233,34 @@ def unjustified_changes(framing, streams, before, after, unit_of_store, loose=Fa
     return bad
 
 
-def tls_candidates(data):
-    """TLS carries bare PDUs without length or check: every decodable prefix of what the framer holds is 'contained'"""
+def tls_candidates(data, loose=False):
+    """TLS carries bare PDUs without length or check: every decodable prefix of what the framer holds is 'contained'.
+    loose=True adds what the framer holds as a non-conformant PDU (judged like over-long / inconsistent PDUs of the other framings)."""
     out = []
     for k in range(1, min(len(data), 300) + 1):
         m = ADU._try(REQ, data[:k])
         if m is not None:
             out.append(ADU.Frame(0, k, 0, data[:k], m))
+    if loose and data:
+        ks = {min(len(data), 300)}
+        if len(data) >= 6 and data[0] == 15 and 6 + data[5] <= len(data):
+            ks.add(6 + data[5])
+        for k in sorted(ks):
+            if ADU._try(REQ, data[:k]) is None:
+                out.append(ADU.Frame(0, k, 0, data[:k], {'dir': REQ, 'fc': data[0], 'malformed': True}))
     return out
+
+
+def tcp_desync(front, stream, reads):
+    """input predicate of the tcp-length-inconsistent-with-pdu region: the reference receiver cannot parse what one receiver
+    instance is given - the connection's stream, or (datagram front-ends, one receive call per datagram) any single datagram"""
+    if front in FE.STREAM:
+        return ADU.parse_stream('tcp', REQ, stream)[2] is not None
+    for dg in reads:
+        fs, pos, err = ADU.parse_stream('tcp', REQ, dg)
+        if err is not None or pos != len(dg):
+            return True
+    return False
 
 
 def probe_reads(framing, layout, n):
@@ -265,8 +286,6 @@ def check(run, case):
     run.count('hostile_bytes', sum(len(x) for x in reads))
     regs = set()
     stream = b''.join(reads)
-    if front == 'tw-udp':
-        regs.add('twisted-udp-dead')
     if front.startswith('tw') and len(stream) < 5000 and any(f.msg.get('fc') == 8 and f.msg.get('sub') == 4 for f in ADU.candidates(framing, REQ, stream)):
         regs.add('twisted-listen-only-is-permanent')
     kinds = {}
@@ -279,7 +298,8 @@ def check(run, case):
     if res.stuck:
         kinds['stuck'] = 'the handler of %s spins / never returns' % tag
     # (2) store
-    streams = [stream] if front in FE.STREAM else list(reads)
+    # (the asyncio and Twisted datagram protocols keep one framer for all datagrams: a request may be contained in consecutive datagrams)
+    streams = [stream] if front in FE.STREAM else list(reads) + ([stream] if front in ('aio-udp', 'tw-udp') and len(reads) > 1 else [])
     if framing == 'tls':
         streams = [b''.join(reads[i:j]) for i in range(len(reads)) for j in range(i + 1, len(reads) + 1)]
     bad = unjustified_changes(framing, streams, before, after, UNIT, layout=layout) if after != before else []
@@ -287,11 +307,11 @@ def check(run, case):
     if after != before:
         run.count('stores_changed_by_hostile_input')
     LOOSE_SLUGS.clear()
-    if bad and framing not in ('tcp', 'tls') and not unjustified_changes(framing, streams, before, after, UNIT, loose=True, layout=layout):
+    if bad and framing != 'tcp' and not unjustified_changes(framing, streams, before, after, UNIT, loose=True, layout=layout):
         regs |= set(LOOSE_SLUGS)
         kinds['store-change-from-nonconformant-pdu'] = 'cells changed by a checksum-valid frame whose PDU is not a conformant request (%s): %r' % (sorted(LOOSE_SLUGS), bad[:4])
     elif bad:
-        if framing == 'tcp' and ADU.parse_stream('tcp', REQ, stream)[2] is not None:
+        if framing == 'tcp' and tcp_desync(front, stream, reads):
             regs.add('tcp-length-inconsistent-with-pdu')
             kinds['unjustified-store-change-after-tcp-desync'] = 'cells changed without a justifying request: %r' % (bad[:4],)
         else:
@@ -341,8 +361,6 @@ def check(run, case):
     if not kinds:
         return True
     excuse = set()
-    if 'twisted-udp-dead' in regs:
-        excuse |= {'probe-unanswered'}
     if 'twisted-listen-only-is-permanent' in regs:
         excuse |= {'probe-unanswered'}
     if 'tcp-length-inconsistent-with-pdu' in regs:
@@ -352,7 +370,7 @@ def check(run, case):
     if 'pdu-trailing-bytes-ignored' in regs or 'fc15-quantity-vs-bytecount' in regs or 'ascii-lrc-field-parsed-leniently' in regs:
         excuse |= {'store-change-from-nonconformant-pdu'}
     left = set(kinds) - excuse
-    used = {'twisted-udp-dead': {'probe-unanswered'}, 'twisted-listen-only-is-permanent': {'probe-unanswered'},
+    used = {'twisted-listen-only-is-permanent': {'probe-unanswered'},
             'tcp-length-inconsistent-with-pdu': {'unjustified-store-change-after-tcp-desync'},
             'ascii-bad-lrc-blocks-forever': {'probe-unanswered-after-ascii-span'},
             'pdu-trailing-bytes-ignored': {'store-change-from-nonconformant-pdu'}, 'fc15-quantity-vs-bytecount': {'store-change-from-nonconformant-pdu'},
@@ -361,8 +379,7 @@ def check(run, case):
         for slug in sorted(regs):
             if not (used.get(slug, set()) & set(kinds)):
                 continue
-            run.known(slug, {'twisted-udp-dead': 'Twisted UDP protocol raises TypeError on every datagram: it never serves anybody',
-                             'twisted-listen-only-is-permanent': 'a force-listen-only request silences the Twisted front-end for every later connection',
+            run.known(slug, {'twisted-listen-only-is-permanent': 'a force-listen-only request silences the Twisted front-end for every later connection',
                              'tcp-length-inconsistent-with-pdu': 'after an MBAP frame whose length disagrees with its PDU the TCP framer executes requests decoded from mis-aligned bytes',
                              'ascii-lrc-field-parsed-leniently': 'an ASCII frame whose LRC field is not two hex digits is accepted (int(x,16) leniency) and executed',
                              'fc15-quantity-vs-bytecount': 'FC15 whose quantity exceeds the bits present is executed with the bits present',
